@@ -159,8 +159,11 @@ inductive NondetKind where
   | currentStack
   /-- temporary directory / directory walk inside `check_deb` (C17's parameter) -/
   | debUnpack
-  /-- terminal capabilities / tty test on the start-up path -/
-  | terminalSetup
+  /-- environment variables, tty test, terminal capabilities read once at import or on the start-up path -/
+  | startupEnvironment
+  /-- external program or C library called on file content (iconv, dpkg): a deterministic function of its input, a
+      parameter of C17 / C20; code passed as `preexec_fn` runs in the forked child only -/
+  | externalTool
   /-- CPU count for `-j auto` (start-up; job count is irrelevant: `jobs_schedule_irrelevant`) -/
   | cpuCount
   /-- anything else (`random`, `id`, `hash`, `os.environ`, `os.getpid`, `time` on the per-file path …).  NOT benign. -/
